@@ -173,7 +173,7 @@ func runProperty(rc *runCtx, spec *property) int {
 
 		for hi := range spec.Harnesses {
 			h := &spec.Harnesses[hi]
-			if rc.only != "" && !strings.Contains(h.Name, rc.only) {
+			if rc.only != "" && !strings.Contains(h.Pkg+"/"+h.Name, rc.only) {
 				continue
 			}
 			if h.ThoroughOnly && rc.tier != "thorough" {
@@ -190,10 +190,25 @@ func runProperty(rc *runCtx, spec *property) int {
 			if rc.tier == "thorough" && h.Thorough != nil {
 				bounds = h.Thorough
 			}
+			if len(rc.boundsOverride) > 0 {
+				nb := map[string]int{}
+				for k, v := range bounds {
+					nb[k] = v
+				}
+				for k, v := range rc.boundsOverride {
+					nb[k] = v
+				}
+				bounds = nb
+			}
 			opts := interp.Options{Solver: h.Solver, Bounds: bounds, MaxPaths: h.MaxPaths, Workers: h.Workers, Verbose: rc.verbose, MaxViol: 40,
 				SampleModels: 4, MapOrder: h.MapOrder}
 			if rc.solver != "" {
 				opts.Solver = rc.solver
+			}
+			if d := os.Getenv("GSX_SOLVER_LOG"); d != "" {
+				os.MkdirAll(d, 0o755)
+				opts.SolverLogDir = d
+				opts.Workers = 1
 			}
 			if v, ok := bounds["paths"]; ok {
 				opts.MaxPaths = v
